@@ -19,12 +19,13 @@ RULE = (
     "non-trivial = the two inputs differ or a mask is given; distinct = distinct case tuples"
 )
 ASSUMPTIONS = [
-    "shapes 4^3..7^3, (5,6,7), (8,6,4); shell widths 1/min, 1.5/min, 0.05, 0.2, 0.5",
+    "shapes 4^3..7^3, (5,6,7), (8,6,4), 13^3, (9,11,13), (6,17,10); shell widths 1/min, 1.5/min, 0.05, 0.2, 0.5",
     "a shell is {bins: floor(|f| / dfreq) = i} with |f| from fftfreq; NaN is accepted only on shells where either image has no power",
     "loader-level oracle uses the half-maps returned by the loader itself (their disjointness is C09)",
 ]
 
-SHAPES = [(4, 4, 4), (5, 5, 5), (6, 6, 6), (7, 7, 7), (5, 6, 7), (8, 6, 4)]
+# sides with every small prime factor (13 and 17 are not "FFT-friendly" lengths: a padded or resampled transform shows there)
+SHAPES = [(4, 4, 4), (5, 5, 5), (6, 6, 6), (7, 7, 7), (5, 6, 7), (8, 6, 4), (13, 13, 13), (9, 11, 13), (6, 17, 10)]
 PAIRS = ["same", "ab", "ba", "a3b", "2ab", "neg", "bandlimited", "emptyshell"]
 
 
